@@ -121,6 +121,138 @@ def rename_slides(data: bytes, mode: str, seed: int = 0) -> bytes:
     return rename_parts(data, fin)
 
 
+FAMILIES = {
+    "charts": r"^/ppt/charts/(chart)(\d+)(\.xml)$",
+    "themes": r"^/ppt/theme/(theme)(\d+)(\.xml)$",
+    "notes": r"^/ppt/notesSlides/(notesSlide)(\d+)(\.xml)$",
+    "media": r"^/ppt/media/(image|media)(\d+)(\.\w+)$",
+    "embeddings": r"^/ppt/embeddings/([A-Za-z_]+?)(\d+)(\.\w+)$",
+    "layouts": r"^/ppt/slideLayouts/(slideLayout)(\d+)(\.xml)$",
+    "masters": r"^/ppt/slideMasters/(slideMaster)(\d+)(\.xml)$",
+}
+
+
+def renumber(data: bytes, family: str, mode: str, seed: int = 0) -> bytes:
+    """Another producer's numbering of one part family: `odd` 1,3,5.. (holes below the maximum; count+1 is taken),
+    `shift` k+1 (number 1 free, count+1 taken), `sparse` seeded distinct numbers from 1..3n+3, `reverse`.  Relationships and
+    content-type overrides follow; the package stays closed and means the same."""
+    rx = re.compile(FAMILIES[family])
+    members = read_members(data)
+    fam = sorted(((m.group(1), int(m.group(2)), m.group(3), "/" + n) for n, _ in members for m in [rx.match("/" + n)] if m),
+                 key=lambda t: (t[0], t[1], t[2]))
+    if not fam:
+        return data
+    r = random.Random(seed)
+    by_stem: dict[str, list] = {}
+    for stem, k, ext, pn in fam:
+        by_stem.setdefault(stem, []).append((k, ext, pn))
+    tmp, fin = {}, {}
+    for stem, lst in sorted(by_stem.items()):
+        nums = [k for k, _e, _p in lst]
+        n = len(nums)
+        if mode == "odd":
+            new = [2 * i + 1 for i in range(n)]
+        elif mode == "shift":
+            new = [k + 1 for k in nums]
+        elif mode == "reverse":
+            new = list(reversed(nums)) if n > 1 else [nums[0] + 2]
+        else:
+            new = r.sample(range(1, 3 * n + 4), n)
+        d = lst[0][2].rpartition("/")[0]
+        for i, (k, ext, pn) in enumerate(lst):
+            t = "%s/tmp%s%d%s" % (d, stem, i, ext)
+            tmp[pn] = t
+            fin[t] = "%s/%s%d%s" % (d, stem, new[i], ext)
+    data = rename_parts(data, tmp)
+    return rename_parts(data, fin)
+
+
+R_NS = "{http://schemas.openxmlformats.org/officeDocument/2006/relationships}"
+
+
+def respell_rids(data: bytes, style: str = "mixed", seed: int = 0) -> bytes:
+    """Relationship ids as other producers write them (Open XML SDK: R<hex>; zero-padded; sparse; plain words).  Every r:* attribute of
+    the source part that carried the old id carries the new one: the package means the same."""
+    r = random.Random(seed)
+    members = read_members(data)
+    by_name = {"/" + n: b for n, b in members}
+    newxml = {}
+    newrels = {}
+    for n, blob in members:
+        pn = "/" + n
+        if not refpkg._is_rels_item(pn):
+            continue
+        src = refpkg._source_of_rels_item(pn)
+        root = refpkg.parse(blob)
+        rels = [el for el in root if isinstance(el.tag, str)]
+        if not rels or (src != "/" and src.endswith(".vml")):
+            continue
+        st = style if style != "mixed" else r.choice(["hex", "padded", "sparse", "words", "hex"])
+        mapping = {}
+        used = set()
+        for i, el in enumerate(rels):
+            old_id = el.get("Id")
+            if st == "hex":
+                nid = "R%08x" % r.getrandbits(32)
+            elif st == "padded":
+                nid = "rId0%d" % (i + 1)
+            elif st == "sparse":
+                nid = "rId%d" % (3 * i + r.choice([2, 3, 4]))
+            else:
+                nid = "%s%d" % (r.choice(["rel", "id", "R", "x"]), i + 1)
+            while nid in used:
+                nid += "a"
+            used.add(nid)
+            mapping[old_id] = nid
+        if src != "/" and src in by_name:
+            try:
+                x = refpkg.parse(by_name[src])
+            except Exception:  # noqa: BLE001  (binary source part: nothing refers to the ids)
+                x = None
+            if x is not None:
+                ok = True
+                changed = False
+                for el in x.iter():
+                    if not isinstance(el.tag, str):
+                        continue
+                    for k, v in list(el.attrib.items()):
+                        if k.startswith(R_NS) and v in mapping:
+                            el.set(k, mapping[v])
+                            changed = True
+                        elif not k.startswith(R_NS) and etree.QName(k).localname in ("relid", "pict") and v in mapping:
+                            ok = False      # legacy VML-style references: leave this part's ids alone
+                if not ok:
+                    continue
+                if changed:
+                    newxml[src] = etree.tostring(x, xml_declaration=True, encoding="UTF-8", standalone=True)
+        for el in rels:
+            el.set("Id", mapping[el.get("Id")])
+        newrels[pn] = etree.tostring(root, xml_declaration=True, encoding="UTF-8", standalone=True)
+    out = []
+    for n, blob in members:
+        pn = "/" + n
+        out.append((n, newrels.get(pn, newxml.get(pn, blob))))
+    return write_members(out)
+
+
+def explicit_internal(data: bytes, rate: float = 1.0, seed: int = 0) -> bytes:
+    """TargetMode is optional with default "Internal"; several producers spell it out."""
+    r = random.Random(seed)
+    out = []
+    for n, blob in read_members(data):
+        if refpkg._is_rels_item("/" + n):
+            root = refpkg.parse(blob)
+            ch = False
+            for el in root:
+                if isinstance(el.tag, str) and el.get("TargetMode") is None and r.random() < rate:
+                    el.set("TargetMode", "Internal")
+                    ch = True
+            if ch:
+                blob = etree.tostring(root, xml_declaration=True, encoding="UTF-8", standalone=True)
+        out.append((n, blob))
+    return write_members(out)
+
+
 def drop_notes_master_rel(data: bytes) -> bytes:
     """A legal but unusual deck: notes slides (each related to the notes master) while the presentation part itself has
     neither the notesMaster relationship nor the p:notesMasterIdLst entry."""
@@ -181,6 +313,12 @@ def apply(data: bytes, x: dict) -> bytes:
         return rewrite_slides(data, x.get("how", "strip_tblPr"))
     if kind == "drop_notes_master_rel":
         return drop_notes_master_rel(data)
+    if kind == "explicit_internal":
+        return explicit_internal(data, x.get("rate", 1.0), x.get("seed", 0))
+    if kind == "respell_rids":
+        return respell_rids(data, x.get("style", "mixed"), x.get("seed", 0))
+    if kind == "renumber":
+        return renumber(data, x["family"], x.get("mode", "odd"), x.get("seed", 0))
     if kind == "rename_slides":
         return rename_slides(data, x.get("mode", "reverse"), x.get("seed", 0))
     if kind == "ids":
